@@ -29,6 +29,8 @@ META = {
                   "Tie: the same Gallina term run in binary64 agrees with the real routine on generated PSD inputs (n <= 12 eigen, n <= 8 iterative; scales 1e-6..1e6; roots incl. fractional; all four "
                   "configurations, diagonal flag, 1x1, iteration/tolerance/order settings): X normwise 1e-9 / 1e-6, termination flag, iteration count, exception class, matrix handed to eigh. "
                   "Guard clause tested directly on the real code (float32/float64, cond up to 1e12, n up to 64): every returned higher-order result has a recomputed residual <= 0.1 equal to the reported one. "
+                  "Converged-flag clause tested directly on structured families (constant diagonal, rank one, correlation matrices) and every integer root 1..8: a CONVERGED report always comes with "
+                  "max|M - I| <= tolerance and the residual of the returned X within tolerance + rounding. "
                   "PARTIAL: the accuracy bound c * (n*u*cond/r + tol*cond + exponent-rounding term) is MEASURED, not proved: float32 and float64 against a 50-digit mpmath reference (n <= 16) and a float64 "
                   "reference (float32, n <= 128); the observed constant is written to the evidence and the check fails above 64.",
     "level_note": "Trusted: Coq kernel + vm_compute; the hand-written model (checked against the code only on generated inputs); the eigh oracle contract (measured by C11); torch.pow = real power; "
@@ -282,6 +284,111 @@ def guard_one(A, p: int, eps: float, rel: float, order: int, max_iter: int, tol:
     return r
 
 
+# ------------------------------------------------------------------------------------------------
+# converged-flag clause (direct test of the real code): "an iterative solver that reports convergence has met its tolerance"
+# on STRUCTURED inputs (constant diagonals, rank one, correlation matrices ...) as well as random ones, every integer root 1..8.
+
+CONV_C = 256.0       # slack constant in  residual <= tol*(1+1e-3) + CONV_C * p * n * u * cond   (X^p A_ridge = M exactly over the reals: newton_invariant)
+
+
+def structured_matrices(rng, thorough: bool):
+    """[(name, A float64)] - unit-scale structured symmetric PSD matrices."""
+    import torch
+    out = []
+    for n in range(2, 9):                                     # rank one, entries +-a
+        for pat in ("same", "alt", "rand"):
+            g = torch.tensor([1.0 if pat == "same" else ((-1.0) ** i if pat == "alt" else rng.choice([-1.0, 1.0])) for i in range(n)], dtype=torch.float64)
+            out.append((f"rank1-{pat}-n{n}", torch.outer(g, g)))
+    rhos = [i / 20 for i in range(0, 20)] + [6.0 ** -0.5, 0.99]
+    for n in (2, 3, 4, 5, 6, 8):                              # equicorrelation
+        for rho in (rhos if thorough or n <= 4 else rhos[::3] + [6.0 ** -0.5]):
+            out.append((f"equicorr-n{n}-rho{rho:.4f}", torch.full((n, n), rho, dtype=torch.float64).fill_diagonal_(1.0)))
+    for k in (1, 2, 3, 4):                                    # block correlation kron(I_k, [[1,r],[r,1]])
+        for r in [0.0, 0.1, 0.25, 0.4, 0.5, 0.6, 0.7, 0.75, 0.8, 0.9, 0.95, 0.999]:
+            B = torch.tensor([[1.0, r], [r, 1.0]], dtype=torch.float64)
+            out.append((f"blockcorr-k{k}-r{r}", torch.kron(torch.eye(k, dtype=torch.float64), B)))
+    for n in (3, 4, 5, 6, 8):                                 # constant-diagonal Toeplitz (AR(1)) and circulant
+        for rho in (0.1, 0.3, 0.5, 0.7, 0.9):
+            idx = torch.arange(n)
+            d = (idx[:, None] - idx[None, :]).abs()
+            out.append((f"toeplitz-n{n}-rho{rho}", torch.tensor(rho, dtype=torch.float64) ** d))
+            dc = torch.minimum(d, n - d)
+            out.append((f"circulant-n{n}-rho{rho}", torch.tensor(rho, dtype=torch.float64) ** dc))
+    for n in (2, 3, 5, 8):                                    # identities and diagonal matrices with repeated entries
+        out.append((f"identity-n{n}", torch.eye(n, dtype=torch.float64)))
+        out.append((f"diag-repeated-n{n}", torch.diag(torch.tensor([1.0 if i % 2 == 0 else 0.25 for i in range(n)], dtype=torch.float64))))
+    for k in range(60 if thorough else 20):                   # random PSD
+        n = rng.randint(2, 8)
+        lam = mfh.spectrum(rng, n, ("psd", "rankdef", "repeated")[k % 3], 1.0, 10 ** rng.uniform(0, 5))
+        out.append((f"random-n{n}", mfh.make_sym(lam, rng.randrange(1 << 40))))
+    keep = []
+    for name, A in out:
+        A = (A + A.T) / 2
+        if float(torch.linalg.eigvalsh(A)[0]) >= -1e-12:
+            keep.append((name, A))
+    return keep
+
+
+def converged_one(A, p: int, q: int, eps: float, solver: str, tol: float, max_iter: int, order: int, dtype: str) -> dict:
+    """Call the private solver (5-tuple).  If it reports CONVERGED recompute, in the working dtype, (a) max|M - I| from the returned M and
+    (b) max|A_ridge X^p - I| from the returned X (integer roots)."""
+    import torch
+    import matrix_functions as mf
+    tdt = getattr(torch, dtype)
+    u = U[dtype]
+    Ad = A.to(tdt)
+    n = Ad.shape[0]
+    try:
+        with mfh.quiet():
+            if solver == "newton":
+                X, M, flag, it, err = mf._matrix_inverse_root_newton(Ad, root=p, epsilon=eps, max_iterations=max_iter, tolerance=tol)
+            else:
+                X, M, flag, it, err = mf._matrix_inverse_root_higher_order(Ad, root=Fraction(p, q), rel_epsilon=0.0, abs_epsilon=eps, max_iterations=max_iter,
+                                                                           tolerance=tol, order=order)
+    except Exception as ex:  # noqa
+        return {"outcome": "raise:" + type(ex).__name__}
+    r: dict = {"outcome": "ok:" + flag.name, "iterations": int(it), "reported_error": float(err)}
+    if flag.name != "CONVERGED":
+        return r
+    I = torch.eye(n, dtype=tdt)
+    Ar = torch.add(Ad, I, alpha=eps)
+    r["M_dev"] = float((M - I).abs().max())
+    r["M_limit"] = tol * (1 + 1e-3) + 4 * u
+    ev = torch.linalg.eigvalsh(Ar.double())
+    cond = float(ev[-1] / ev[0]) if float(ev[0]) > 0 else float("inf")
+    r["cond"] = cond
+    if q == 1:
+        r["residual"] = float((Ar @ torch.linalg.matrix_power(X, p) - I).abs().max())
+        r["residual_limit"] = tol * (1 + 1e-3) + CONV_C * p * n * u * cond
+        r["residual_c"] = max(0.0, r["residual"] - tol * (1 + 1e-3)) / (p * n * u * cond) if cond < float("inf") else 0.0
+    return r
+
+
+def gen_converged_inputs(rng, thorough: bool):
+    """(name, A, p, q, eps, solver, tol, max_iter, order, dtype)"""
+    out = []
+    mats = structured_matrices(rng, thorough)
+    k = 0
+    for name, A0 in mats:
+        for p in range(1, 9):
+            scales = [10 ** rng.uniform(-3, 3)] if not thorough else [1.0, 10 ** rng.uniform(-3, 3)]
+            for scale in scales:
+                for eps_rel in (0.0, 1e-12, 1e-6):
+                    dtype = ("float32", "float64")[k % 2]
+                    k += 1
+                    tol = (1e-6, 1e-6, 1e-4, 1e-8)[k % 4]
+                    eps = eps_rel * scale if eps_rel == 1e-6 else eps_rel
+                    out.append((name, A0 * scale, p, 1, eps, "newton", tol, 100, 0, dtype))
+        # higher order: three integer roots per matrix + one fractional
+        for p, q in [(rng.randint(1, 8), 1), (rng.randint(1, 8), 1), (2 * (A0.shape[0]) - 1 if A0.shape[0] <= 4 else 4, 1), rng.choice([(3, 2), (4, 3), (5, 2), (2, 3)])]:
+            scale = 10 ** rng.uniform(-3, 3)
+            dtype = ("float32", "float64")[k % 2]
+            k += 1
+            eps = rng.choice([1e-12, 1e-6 * scale, 1e-6 * scale])
+            out.append((name, A0 * scale, p, q, eps, "ho", (1e-6, 1e-8, 1e-4)[k % 3], 100, rng.choice([2, 3, 3, 4]), dtype))
+    return out
+
+
 CONFIGS = [("eigen", False), ("eigen", True), ("newton", 100, 1e-6), ("ho", 0.0, 100, 1e-8, 3)]
 
 
@@ -459,11 +566,58 @@ def run(ck: Check) -> None:
         robj["n_failing"] = len(g_viol)
         ck.report(None, f"higher-order solver ({robj['dtype']}, n={nA}, root {robj['p']}, order {robj['order']}, {robj['matrix_kind']}, eps {robj['eps']:.2e}) {what}", robj)
 
+    # ---- 4. converged-flag clause on structured inputs (direct test of the real code) -------------------
+    cinputs = gen_converged_inputs(ck.rng, thorough)
+    c_out: dict = {}
+    c_viol = []
+    c_worst = {"M_dev_over_tol": 0.0, "residual_c": 0.0}
+    c_converged = 0
+    for (name, A, p, q, eps, solver, tol, mi, order, dtype) in cinputs:
+        r = converged_one(A, p, q, eps, solver, tol, mi, order, dtype)
+        key = solver + " " + dtype + " " + r["outcome"]
+        c_out[key] = c_out.get(key, 0) + 1
+        if r["outcome"] != "ok:CONVERGED":
+            continue
+        c_converged += 1
+        what = None
+        if not (r["M_dev"] <= r["M_limit"]):
+            what = (f"reports CONVERGED after {r['iterations']} iterations (reported error {r['reported_error']:.2e}) but max|M - I| of the returned coupled matrix is "
+                    f"{r['M_dev']:.3e} > tolerance {tol:g}")
+        elif "residual" in r and not (r["residual"] <= r["residual_limit"]):
+            what = (f"reports CONVERGED but the residual max|A_ridge X^p - I| of the returned X is {r['residual']:.3e} > tolerance {tol:g} + {CONV_C}*p*n*u*cond "
+                    f"(= {r['residual_limit']:.3e})")
+        else:
+            c_worst["M_dev_over_tol"] = max(c_worst["M_dev_over_tol"], r["M_dev"] / tol)
+            c_worst["residual_c"] = max(c_worst["residual_c"], r.get("residual_c", 0.0))
+        if what:
+            c_viol.append((A.shape[0], what, {"kind": "converged-flag-clause", "matrix": name, "dtype": dtype, "solver": solver, "A": A.tolist(), "p": p, "q": q, "eps": eps,
+                                              "tolerance": tol, "max_iterations": mi, "order": order, "measured": r}))
+    if c_viol:
+        c_viol.sort(key=lambda v: (0 if v[2]["measured"].get("cond", float("inf")) < 1e12 else 1, v[0], v[2]["p"]))   # decidable by the Coq checker first, then smallest
+        nA, what, robj = c_viol[0]
+        if robj["q"] == 1 and robj["measured"].get("cond", float("inf")) < 1e12:
+            import torch
+            import matrix_functions as mf
+            tdt = getattr(torch, robj["dtype"])
+            Ad = torch.tensor(robj["A"], dtype=torch.float64).to(tdt)
+            with mfh.quiet():
+                if robj["solver"] == "newton":
+                    Xr = mf._matrix_inverse_root_newton(Ad, root=robj["p"], epsilon=robj["eps"], max_iterations=robj["max_iterations"], tolerance=robj["tolerance"])[0]
+                else:
+                    Xr = mf._matrix_inverse_root_higher_order(Ad, root=Fraction(robj["p"]), rel_epsilon=0.0, abs_epsilon=robj["eps"], max_iterations=robj["max_iterations"],
+                                                              tolerance=robj["tolerance"], order=robj["order"])[0]
+            lim = robj["tolerance"] * (1 + 1e-3) + CONV_C * robj["p"] * nA * U[robj["dtype"]] * robj["measured"]["cond"]
+            term = (f"(C10_checkb fo {nA}%nat {robj['p']}%nat 1%nat (rows {mfh.coq_rows(Ad.double().tolist())}) {coq_float(robj['eps'])} (rows {mfh.coq_rows(Xr.double().tolist())}) "
+                    f"{coq_float(lim)} {coq_float(float('inf'))})")
+            robj["clause_b_only__C10_checkb_in_binary64_with_the_same_residual_limit"] = mfh.eval_bool_lists(ck, "c10c", [[term]], per_file=1)[0]
+        robj["n_failing"] = len(c_viol)
+        ck.report(None, f"{robj['solver']} solver ({robj['dtype']}, {robj['matrix']}, n={nA}, root {robj['p']}/{robj['q']}, eps {robj['eps']:.2e}) {what}", robj)
+
     # ---- evidence -----------------------------------------------------------------------------------
     nontriv = {(tuple(c["shape"]), c["p"], c["q"], c["cfg"], c["tag"]) for c, o in zip(cases, observations) if mfh.case_n(c) >= 2 and o["kind"] == "ok"}
     statuses = mfh.hist((c["cfg"][0] + ":" + o["iter"][-1][0] + f":{min(o['iter'][-1][1], 20)}it") for c, o in zip(cases, observations) if o["iter"])
     ck.coverage.update({
-        "evaluations": len(cases) + len(ainputs) + len(ginputs),
+        "evaluations": len(cases) + len(ainputs) + len(ginputs) + len(cinputs),
         "distinct_nontrivial": len(nontriv),
         "rule": "tie: model (binary64; recorded eigh answer for the eigen paths, no oracle for the iterative solvers) vs real matrix_inverse_root: X normwise (1e-9 eigen / 1e-6 iterative), "
                 "termination flag, iteration count, exceptions by class, eigh query; non-trivial = distinct (shape, root, config, kind) with n >= 2 on which a matrix was returned",
@@ -483,6 +637,14 @@ def run(ck: Check) -> None:
                     "max|A_ridge X^p - I| recomputed from the returned X in the same dtype must be <= 0.1 (+1e-3 relative) and equal the reported true_error",
             "inputs": len(ginputs), "outcomes": dict(sorted(g_out.items())), "violations": len(g_viol),
             "largest_returned_residual": float(f"{g_worst:.4g}"), "largest_gap_to_reported_true_error": float(f"{g_worst_gap:.3g}"),
+        },
+        "converged_flag_clause": {
+            "what": "direct test of the real code: both iterative solvers (private 5-tuple) on structured families (rank one with entries +-a, equicorrelation, block correlation, "
+                    "constant-diagonal Toeplitz / circulant, identities, repeated diagonals) and random PSD inputs, every integer root 1..8 (Newton) / integer + fractional (higher order), "
+                    "eps in {0, 1e-12, 1e-6*scale}, scales 1e-3..1e3, float32 and float64; whenever CONVERGED is reported: max|M - I| of the returned M <= tol*(1+1e-3)+4u and "
+                    f"max|A_ridge X^p - I| of the returned X <= tol*(1+1e-3) + {CONV_C}*p*n*u*cond, both recomputed in the working dtype",
+            "inputs": len(cinputs), "reported_converged": c_converged, "violations": len(c_viol), "outcomes": dict(sorted(c_out.items())),
+            "worst_M_dev_over_tolerance": float(f"{c_worst['M_dev_over_tol']:.4g}"), "worst_residual_constant": float(f"{c_worst['residual_c']:.4g}"),
         },
         "MEASURED_not_proved": {
             "what": "relative Frobenius error of the real routine against (A + eps I)^(-q/p) computed with 50 digits (mpmath, n <= 16) or in float64 (float32 runs, n <= 128), "
@@ -506,6 +668,12 @@ def replay(obj) -> bool:
     if obj.get("kind") == "guard-clause":
         A = torch.tensor(obj["A"], dtype=torch.float64)
         r = guard_one(A, obj["p"], obj["eps"], obj["rel_epsilon"], obj["order"], obj["max_iterations"], obj["tolerance"], obj["dtype"])
+        print("now     :", r)
+        print("recorded:", obj.get("measured"))
+        return True
+    if obj.get("kind") == "converged-flag-clause":
+        A = torch.tensor(obj["A"], dtype=torch.float64)
+        r = converged_one(A, obj["p"], obj["q"], obj["eps"], obj["solver"], obj["tolerance"], obj["max_iterations"], obj["order"], obj["dtype"])
         print("now     :", r)
         print("recorded:", obj.get("measured"))
         return True
